@@ -214,7 +214,7 @@ def main(tier, replay=None):
             cases += crit_cases(rng, xs)
             for f in ERRWIN:
                 cases.append({'f': f, 'args': xs + [{'t': 'err', 'c': '#N/A'}]})
-    for _ in range(280 if quick else 8000):
+    for _ in range(280 if quick else 3000):
         cases += rand_cases(rng)
     part_no = [0]
     samples = []
@@ -234,7 +234,7 @@ def main(tier, replay=None):
     for k in range(0, len(cases), CASES):
         judge(fncases.observe(lib, cases[k:k + CASES], ranges=False, twins=True))
     # the host edits its lists in place between two evaluations of the same call
-    mo = fncases.observe_after_mutation(lib, cases[::7][:800 if quick else 30000])
+    mo = fncases.observe_after_mutation(lib, cases[::7][:800 if quick else 10000])
     run.extra['evaluations_after_in_place_edit'] = len(mo)
     judge(mo)
     obs = []
